@@ -21,6 +21,9 @@ type KnownFinding struct {
 	Harness    string `json:"harness,omitempty"`
 	Obligation string `json:"obligation"`
 	Region     string `json:"region,omitempty"` // SMT-LIB predicate over nondet names; empty = whole obligation
+	// deadlock obligations: the finding is "the harness's main thread waits forever at a blocking step in this source
+	// file" (substring of the event's site); any other deadlock / lost wake-up of the same obligation is still reported
+	BlockedAt string `json:"main_blocked_at,omitempty"`
 	Commit     string `json:"commit,omitempty"`
 	Text       string `json:"text"`
 }
@@ -247,11 +250,36 @@ func solveAll(e *Exec, res *HarnessResult, prop string, timeoutS int, meta *Harn
 			// self-contained query over the prefix encoding (the complete-execution constraints do not apply)
 			r := e.decide(g.raw, timeoutS, meta.Solver, "", true)
 			or.Res, or.Solver, or.SolverS = r.res, r.solver, r.dur
+			raw := g.raw
+			if r.res == "sat" {
+				for _, k := range known {
+					if k.Obligation != g.id || (k.Harness != "" && k.Harness != res.Harness) || k.BlockedAt == "" {
+						continue
+					}
+					region := e.conc.mainStuckAt(k.BlockedAt)
+					in := e.decide(append(append([]*Term(nil), raw...), region), timeoutS, meta.Solver, "", true)
+					if in.res == "sat" {
+						res.Known = append(res.Known, fmt.Sprintf("KNOWN-FINDING: property=%s %s [%s]", prop, k.Text, g.id))
+						or.Known = k.Text
+					}
+					raw = append(append([]*Term(nil), raw...), Not(region))
+					outR := e.decide(raw, timeoutS, meta.Solver, "", true)
+					or.SolverS += in.dur + outR.dur
+					switch outR.res {
+					case "unsat":
+						or.Res = "sat-known-only"
+					case "unknown":
+						or.Res = "unknown"
+						or.Detail += " (outside the known finding undecided)"
+					}
+					r = outR
+				}
+			}
 			if r.res == "sat" {
 				dir := filepath.Join(outDir, sanitize(g.id))
 				os.MkdirAll(dir, 0o755)
-				os.WriteFile(filepath.Join(dir, "query.smt2"), []byte(Script(g.raw, true, "")), 0o644)
-				e.conc.writePrefixTrace(e, dir, g.raw, timeoutS)
+				os.WriteFile(filepath.Join(dir, "query.smt2"), []byte(Script(raw, true, "")), 0o644)
+				e.conc.writePrefixTrace(e, dir, raw, timeoutS)
 				or.Replay = dir
 				res.Violations = append(res.Violations, fmt.Sprintf("VIOLATION property=%s replay=%s obligation=%s site=%s replayed=skipped deadlock/lost wake-up: see schedule.txt", prop, dir, g.id, g.site))
 			}
